@@ -50,7 +50,7 @@ impl BinaryResponse {
 }
 
 impl MemcacheBinaryCodec {
-    const RESPONSE_HEADER_LEN: usize = 24;
+//@consts protocol/binary_codec.rs | impl MemcacheBinaryCodec
 
 //@fn protocol/binary_codec.rs | impl MemcacheBinaryCodec | get_length | ret=r | safety=C10
     ensures
